@@ -474,7 +474,9 @@ class StretchyTreeMatcher:
                     mapping.add_var_to_sym_table(ins_node, std_node)  # TODO: Capture result?
                 matched = True
         # could else return False, but shallow_match_generic should do this as well
-        elif match[_EXP] and meta_matched:
+        elif match[_EXP] and meta_matched and id_val == "id":
+            # only a Name can be an expression placeholder; x.__class__ or an argument
+            # called __x__ is ordinary content
             mapping.add_exp_to_sym_table(ins_node, std_node)
             matched = True
         elif match[_WILD] and meta_matched:
